@@ -303,8 +303,25 @@ class ExprMixin:
         st.assume(z3.InRe(a, z3.Star(ws1))); st.assume(z3.InRe(b, z3.Star(ws1)))
         st.assume(z3.Or(r == S(""), z3.And(z3.Not(z3.InRe(z3.SubString(r, 0, 1), ws1)),
                                             z3.Not(z3.InRe(z3.SubString(r, z3.Length(r) - 1, 1), ws1)))))
+        st.assume((r == S("")) == z3.InRe(s, z3.Star(ws1)))      # consequence of the three facts above, stated for the solvers
         self.note_assumption("str.strip() strips only space, tab, CR, LF (other Unicode whitespace assumed absent)")
         return r
+
+    LINE_BREAKS = ["\n", "\r", "\x0b", "\x0c", "\x1c", "\x1d", "\x1e", "\x85", "\u2028", "\u2029"]
+    def py_split(self, st, s, sep):
+        """s.split(sep) for a constant non-empty sep / s.splitlines(): an uninterpreted function of s per separator, with the facts
+        'no piece contains a separator', 'a string without separator is its own single piece' (split), 'at least one piece' (split)."""
+        lt = T.List(T.Str)
+        tag = "lines" if sep is None else "_".join("%x" % ord(c) for c in sep)
+        f = z3.Function("py_split_" + tag, z3.StringSort(), T.sort_of(lt))
+        r = f(s); n = T.list_len(lt, r); arr = T.list_arr(lt, r)
+        j = z3.Int("j!split")
+        seps = self.LINE_BREAKS if sep is None else [sep]
+        st.assume(n >= (0 if sep is None else 1))
+        st.assume(z3.ForAll([j], z3.Implies(z3.And(j >= 0, j < n), z3.And([z3.Not(z3.Contains(arr[j], S(x))) for x in seps])), patterns=[arr[j]]))
+        if sep is not None:
+            st.assume(z3.Implies(z3.Not(z3.Contains(s, S(sep))), z3.And(n == 1, arr[0] == s)))
+        return SV(lt, r)
 
     def str_method(self, st, recv, name, args, node):
         s = recv.t
@@ -317,6 +334,10 @@ class ExprMixin:
         if name == "rfind": return SV(T.Int, self.rfind(st, s, a(0)))
         if name == "replace": return SV(T.Str, _seq_replace_all(s, a(0), a(1)))
         if name == "strip" and not args: return SV(T.Str, self.strip(st, s))
+        if name == "split" and len(args) == 1 and is_pystr(args[0]) and len(args[0].t.as_string()) > 0:
+            return self.py_split(st, s, args[0].t.as_string())
+        if name == "splitlines" and not args:
+            return self.py_split(st, s, None)
         if name == "count" and is_pystr(recv): return SV(T.Int, I(recv.t.as_string().count(args[0].t.as_string())))
         if name == "isnumeric":
             f = z3.Function("py_isnumeric", z3.StringSort(), z3.BoolSort())
